@@ -173,6 +173,9 @@ JOBS = [
 # Tried and also caught on the repaired copy (not kept, limit of 8): stride ignored (x += 1), junk accepted, publication before the
 # real initialisation, nw threads created, g_envs_sz off by one, explicit attributes ignored, -1 from the parser not reset,
 # exit flags not raised for worker 0, no migration back to worker 0, exit flag not cleared by myth_setup_worker.
+# the public API functions are one-line forwarders to the bodies under contract: checked mechanically (DESIGN 3.5b)
+from units.common_forward import forward_job
+JOBS = list(JOBS) + [forward_job("c15")]
 META = {
  "level": "proof",
  "level_text": "Contracts on the real CPU-list parser (every NUL-terminated string up to INT_MAX-3 bytes, every output capacity up to 2^24; "
